@@ -66,6 +66,9 @@ def replay_world(case, final=True, post=None):
     """Re-execute a stored case without Hypothesis. Returns a failure description or None."""
     d = case_dir()
     reset_class_state()
+    toff = case.get("cfg", {}).get("threading_off") and CLASSES[case["class"]].backend == "json"
+    if toff:
+        CLASSES[case["class"]].cls.disable_multithreading()
     try:
         w = world_from_case(case, d)
         try:
@@ -79,6 +82,8 @@ def replay_world(case, final=True, post=None):
             return mm.describe()
         return None
     finally:
+        if toff:
+            CLASSES[case["class"]].cls.enable_multithreading()
         reset_class_state()
         shutil.rmtree(d, ignore_errors=True)
 
@@ -88,6 +93,9 @@ def run_generated(prop, ci, docs, gen_step, draw, max_steps, final=True, post=No
     """Generate and execute one case step by step. Returns the finished world."""
     d = case_dir()
     reset_class_state()
+    toff = cfg.get("threading_off") and ci.backend == "json"
+    if toff:
+        ci.cls.disable_multithreading()
     try:
         w = _engine(engine)(ci, d, initial_docs=copy.deepcopy(docs), **_wkw(cfg))
         n = draw(st.integers(1, max_steps))
@@ -106,6 +114,8 @@ def run_generated(prop, ci, docs, gen_step, draw, max_steps, final=True, post=No
                               mm.describe())
         return w
     finally:
+        if toff:
+            ci.cls.enable_multithreading()
         reset_class_state()
         shutil.rmtree(d, ignore_errors=True)
 
